@@ -59,6 +59,14 @@ class Ctx:
         self.assume = []
         self.log_lines = []
         self.known = load_known()
+        rdir = os.path.join(VERIF, "replays", pid)
+        if os.path.isdir(rdir):
+            for f in os.listdir(rdir):
+                if ("_%s_" % tier) in f:
+                    try:
+                        os.remove(os.path.join(rdir, f))
+                    except OSError:
+                        pass
 
     # ------------------------------------------------------------------ utilities
     def log(self, *a):
